@@ -412,6 +412,23 @@ def scan_cache_sites():
     return rows
 
 
+def fileinfo_token_fields():
+    """attributes of a pyarrow FileInfo that `_tokenize_fileinfo` (io/parquet.py) puts into its token: the dataset
+    checksum of the arrow reader and the key of `_STATS_CACHE` are built from exactly these"""
+    tree = ast.parse((PKG / "io" / "parquet.py").read_text())
+    for n in ast.walk(tree):
+        if isinstance(n, ast.FunctionDef) and n.name == "_tokenize_fileinfo" and n.args.args:
+            arg = n.args.args[0].arg
+            out = []
+            for r in ast.walk(n):
+                if isinstance(r, ast.Return) and r.value is not None:
+                    for a in ast.walk(r.value):
+                        if isinstance(a, ast.Attribute) and isinstance(a.value, ast.Name) and a.value.id == arg:
+                            out.append(a.attr)
+            return out
+    return []
+
+
 @generator("CacheSites")
 def gen_cache_sites():
     rows = scan_cache_sites()
@@ -433,8 +450,11 @@ def gen_cache_sites():
             f"    key := {lean_str(r['key'])}, uncovered := [{', '.join(lean_str(u) for u in r['uncovered'])}] }}"
         )
     lines.append(",\n".join(ents))
-    lines += ["]", "", "end Dx.Generated", ""]
-    return "\n".join(lines), len(rows)
+    lines += ["]", "",
+              "/-- FileInfo attributes entering `_tokenize_fileinfo` (arrow reader's dataset checksum, key of `_STATS_CACHE`) -/",
+              "def fileinfoTokenFields : List String := [" + ", ".join(lean_str(x) for x in fileinfo_token_fields()) + "]", "",
+              "end Dx.Generated", ""]
+    return "\n".join(lines), len(rows) + 1
 
 
 # =========================================================================== NameRules
